@@ -2,7 +2,6 @@ package vuego
 
 import (
 	"fmt"
-	"html"
 	"strings"
 
 	htmlnode "golang.org/x/net/html"
@@ -37,8 +36,9 @@ func (v *Vue) evalVText(ctx VueContext, n *htmlnode.Node) error {
 	}
 
 	// Evaluate v-text expression to its string value and escape for HTML
+	// (the serialiser's escaping: a carriage return becomes &#13;, written raw it would be read back as a line feed)
 	textStr := fmt.Sprint(val)
-	escapedStr := html.EscapeString(textStr)
+	escapedStr := htmlnode.EscapeString(textStr)
 	n.Attr = append(n.Attr, htmlnode.Attribute{Key: "data-v-text-content", Val: escapedStr})
 
 	// Clear children - v-text content will be output directly during rendering
